@@ -75,8 +75,14 @@ class WebsocketSession(object):
         """Force the socket to disconnect."""
         raise _ForceDisconnect()
 
-    def write(self, data):
-        """Send raw data."""
+    def write(self, data, close=False):
+        """Send raw data.
+
+        If `close` is True, the data is a close frame: the websocket
+        enters the closing state while the write lock is still held,
+        so that nothing can be written after it from another thread.
+
+        """
         with self._lock:
             if self._sock is None:
                 log.debug('WebSocket unavailable; data not sent')
@@ -101,11 +107,13 @@ class WebsocketSession(object):
                 raise errors.TransportFail(
                     'socket error; {}', error
                 )
+            if close:
+                self.websocket.state.closing = True
 
     def send(self, opcode, data):
         """Send a WS Frame."""
         frame = Frame(opcode, payload=bytearray(data))
-        self.write(frame.to_bytes())
+        self.write(frame.to_bytes(), close=frame.is_close)
         log.debug(' SRV <- CLI : %r', frame)
 
     def send_compressed(self, opcode, data):
